@@ -106,6 +106,8 @@ type explorer struct {
 	byFP     map[string]*Violation
 	pruned   bool // some alternative was not taken because of the bound
 	rootKids int
+	kid1     int // running number of the root's children in this level pass
+	kid2     int // running number of the root's grandchildren in this level pass
 	stop     bool
 }
 
@@ -256,6 +258,14 @@ func (e *explorer) evaluate(s Schedule, r *vrt.Result) {
 // dfs runs schedule s (which has len(s) deviations); if len(s)==level the
 // execution is evaluated, otherwise its children are explored.
 func (e *explorer) dfs(s Schedule, level int) {
+	e.walk(s, level, true)
+}
+
+// walk runs schedule s. Work is shared between the shards at depth 2 of the
+// choice tree: every shard walks the root and the root's children (a few
+// hundred executions per level), the sub-trees below the root's grandchildren
+// are dealt round robin (mine tells whether this shard evaluates s itself).
+func (e *explorer) walk(s Schedule, level int, mine bool) {
 	if e.stop {
 		return
 	}
@@ -266,12 +276,8 @@ func (e *explorer) dfs(s Schedule, level int) {
 	}
 	r := e.run(s)
 	atLevel := s.Cost() == level
-	if atLevel {
-		if len(s) == 0 && e.cfg.Shard != 0 {
-			// the root is evaluated by shard 0 only
-		} else {
-			e.evaluate(s, r)
-		}
+	if atLevel && mine {
+		e.evaluate(s, r)
 	} else {
 		e.st.Reruns++
 	}
@@ -283,24 +289,32 @@ func (e *explorer) dfs(s Schedule, level int) {
 	if len(s) > 0 {
 		from = s[len(s)-1].Pos + 1
 	}
-	kid := 0
 	for i := from; i < len(r.Points); i++ {
 		for alt := 1; alt < r.Points[i].N; alt++ {
 			free := r.Points[i].Free
-			if len(s) == 0 {
-				mine := kid%e.cfg.Shards == e.cfg.Shard
-				kid++
-				if !mine {
+			childMine := mine
+			switch len(s) {
+			case 0:
+				// a child of the root: walked by every shard, evaluated by one
+				childMine = e.kid1%e.cfg.Shards == e.cfg.Shard
+				e.kid1++
+			case 1:
+				// a grandchild of the root: its whole sub-tree belongs to one shard
+				childMine = e.kid2%e.cfg.Shards == e.cfg.Shard
+				e.kid2++
+				if !childMine {
 					continue
 				}
 			}
 			if atLevel && !free {
 				// beyond this level's budget
-				e.pruned = true
+				if childMine {
+					e.pruned = true
+				}
 				continue
 			}
 			child := append(append(Schedule(nil), s...), Dev{i, alt, free})
-			e.dfs(child, level)
+			e.walk(child, level, childMine)
 			if e.stop {
 				return
 			}
@@ -318,7 +332,8 @@ func Explore(body func(), cfg Config) *Stats {
 	e := &explorer{cfg: cfg, body: body, st: st, byFP: map[string]*Violation{}}
 	for level := 0; level <= cfg.Bound; level++ {
 		e.pruned = false
-		e.dfs(nil, level)
+		e.kid1, e.kid2 = 0, 0
+		e.walk(nil, level, cfg.Shard == 0)
 		if e.stop {
 			break
 		}
